@@ -73,6 +73,8 @@ def run_checked(ctx, cfg, segs, kind):
             if name == "_Runaway":
                 raise
             if name == "ParserHang":
+                if not H.confirm_hang(cfg, segs):
+                    return run_checked(ctx, cfg, segs, kind)     # a GC pause, not the parser: run again
                 H.note_hang(cfg, segs)
             elif name not in H.KNOWN_ERRS:
                 ctx.violation(f"C10/escaped-exception/{name}", case, f"{name} left feed_data: {e!r}"[:300])
